@@ -160,6 +160,17 @@ CLAIMS = {
         "give different noise, and determinism of third-party estimators (sigma_clip): bounded native runs.",
    note="level 'other': determinism across executions is a 2-safety property - decided here for the modelled state (arguments, fields, ghost generator streams, wall clock); third-party calls are assumed functions of their inputs",
    technique="contract-based deductive verification (relational two-run obligations, taint of wall-clock/unseeded streams, loop invariants of C04, heap-isomorphism for copies); bounded native two-run replay"),
+ 'C19': dict(cat='other', ref='DESIGN.md 2/C19',
+   text="split_waterfall_generator: loop invariant over the channel window (symbolic nchans, fchans, shift, header frequency and resolution of either "
+        "sign): exactly floor((nchans-fchans)/shift)+1 pieces (0 if the band is narrower than a piece), the i-th request is the frequency window of "
+        "file channels [i*s, i*s+fchans) with integrations [0, tchans), ValueError only if more integrations are requested than the file has; the "
+        "window test is integer arithmetic, so the count is independent of floating point. Consumers (get_parameter_distributions, "
+        "get_mean_distribution) return exactly one entry per piece. split_array with shifts equal to the tile sizes: two nested loop invariants "
+        "(symbolic array shape and tile size) - at loop exit (both exits) the list is the complete row-major partition: R*C tiles, tile (r,c) = "
+        "data[r*th:min((r+1)th,H), c*tw:min((c+1)tw,W)]; the two trim predicates (extracted lambdas) hold exactly for full-size tiles. NOT decided "
+        "here: blimpy's mapping of a frequency window to channels, the written files of split_fil, the final ndarray packaging - bounded native runs.",
+   note="level 'other': the per-piece data/frequency clause goes through blimpy (external); the contract side proves the requests and counts, the bounded side the files",
+   technique="contract-based deductive verification (loop invariants incl. nested loops with break, ghost row/column maps, extracted predicates); bounded native runs on written files"),
 }
 NA_REASON = "not yet built in this session (see DESIGN.md build order)"
 
